@@ -1,6 +1,6 @@
 """C18 - message log: filters mean what they say and the view equals the filtered log.
 
-Model: coq/theories/Log/Filter.v (filter language + leaf semantics), Log/LogView.v (logger).
+Model: coq/theories/Log/Filter.v (filter language + leaf semantics), Log/LogView.v (logger), Log/FilterSyntax.v (grammar + printer).
 Tie: generated filter ASTs are printed to the concrete syntax, compiled with the real
 compile_filter (node tree compared with the AST), evaluated against real LLUDP / EQ / HTTP log
 entries with both short_circuit values and diffed against the extracted model; logger operation
@@ -28,8 +28,29 @@ TRUSTED = [
     "entries are identified by object identity",
     "supplied as data by the harness (not modelled): str() of UUID/TupleCoord/JankStringyBytes/dict objects, Block.deserialize_var (subfield "
     "serializers, C08/C09), resolution of EnumFieldSpecifier in hippolyzer.lib.proxy.templates, construction of log entries",
-    "the arpeggio grammar + MessageFilterVisitor are tied by correspondence only (printed AST -> compile_filter -> node tree "
-    "compared with the AST), not modelled in Coq",
+    "concrete syntax (Log/FilterSyntax.v): the PEG grammar of message_filter.py, MessageFilterVisitor and compile_filter's wrapper are "
+    "modelled by hand as a recursive-descent parser (ordered choice with backtracking, whitespace skipped before every terminal, "
+    "StrMatch keywords as plain prefixes, operator and connective lists in the coded order, ZeroOrMore of (connective, expression) as at "
+    "most one iteration - the argument is in the file header) and proved to read back every printed well-formed filter "
+    "(C18_parse_print) and every re-spaced / re-parenthesised rendering of it (C18_parse_rendering); printed filters therefore no "
+    "longer rely on the real grammar as an oracle of what a text means.  The model is tied to the real parser by correspondence only "
+    "(suite 'concrete syntax': accept/reject and the whole tree on printed, mutated, random-token, random-number and hand-written "
+    "texts; the harness printer is compared character by character with the extracted FilterSyntax.print).  arpeggio itself "
+    "(ParserPython, Sequence/OrderedChoice/Optional/ZeroOrMore/OneOrMore backtracking, Match.parse whitespace skipping, the "
+    "suppression of StrMatch terminals inside a Sequence, visit_parse_tree), Python's re engine on the three literal regular "
+    "expressions and ast.literal_eval (string escapes, leading-zero rule, decimal -> binary64 rounding, modelled by sbody / eval_dec / "
+    "b64_of_dec) remain oracles",
+    "concrete syntax, not modelled (texts with these features are left out of the comparison and counted under outside_fragment): "
+    "triple-quoted literals, the \\N{name} escape, control characters other than tab / newline / return, a carriage return inside a "
+    "str / bytes literal, float literals that overflow to inf, code points above 255 in the filter text (escapes \\u / \\U that "
+    "produce them are modelled), texts longer than 1500 characters.  A literal that matches its regular expression but is rejected by "
+    "ast.literal_eval makes the model's literal alternative fail instead of raising after the parse (both reject; argument in the file "
+    "header).  What an EnumFieldSpecifier resolves to is data: the parser takes a resolver and C18_parse_print assumes the tree carries "
+    "the resolver's answers (enums_by)",
+    "concrete syntax, float literals: the printer's float case searches for the fewest fraction digits whose nearest decimal reads "
+    "back (through the model's own rounding) as the same float, so C18_parse_print holds for floats by construction of the printer; "
+    "that this is what repr(float) prints and that b64_of_dec is float() is checked by correspondence only (generated ASTs, 400+ "
+    "random decimal literals per quick run including halfway cases)",
     "export/import and freeze/thaw clause: implementation-level oracle only (pickle, gzip, repr/literal_eval, LLSD notation, "
     "Message.to_dict/from_dict are not modelled); the logged messages are decoded from wire bytes by the real "
     "UDPMessageSerializer/UDPMessageDeserializer, which are used as they are (their own correctness is C01/C02), and the "
@@ -1941,7 +1962,29 @@ def check_case(case, skip=()):
     if k == "roundtrip":
         v = check_roundtrip(case["entry"])
         return v if v and v.get("class") not in skip else None
+    if k == "syntax":
+        io = real_compile(case["text"]) if case.get("cmd", "K") == "K" else real_parse(case["text"])
+        want = case.get("printed_ast") or case["model"]
+        if io is not None and io[:600] != want:
+            return dict(case, got=io[:600])
+        return None
+    if k == "syntax-print":
+        t = print_expr(case["ast"], None)
+        return dict(case, got=t) if t != case["model"] else None
     return None
+
+
+def syntax_case(d):
+    """a text on which the real grammar and its Coq model differ (or the harness printer and FilterSyntax.print)"""
+    if d.get("op") == "syntax-print":
+        return {"kind": "syntax-print", "ast": d["ast"], "model": d["model"], "class": "printer-model-mismatch",
+                "clause": "the harness printer writes what FilterSyntax.print writes", "got": d["impl"]}
+    text = d["text"]
+    # shrink: drop characters while the two still differ in the same way (model output is recorded, so only
+    # deletions that keep the recorded model answer valid are not available offline; keep the text as it is)
+    return {"kind": "syntax", "cmd": d.get("cmd", "K"), "text": text, "model": d["model"], "class": "grammar-model-mismatch",
+            "clause": "the grammar accepts exactly the texts its model accepts and builds the same tree", "got": d["impl"],
+            "printed_ast": d.get("printed_ast")}
 
 
 def shrink_logger(v):
@@ -1987,6 +2030,8 @@ def search(ctx, hints):
             v = check_case({"kind": "logger", "maxlen": d["maxlen"], "ops": d["ops"]}, _known_classes())
             if v:
                 return shrink_logger(v)
+        if d.get("op") in ("syntax", "syntax-print"):
+            return syntax_case(d)
         if d.get("op") == "parse":
             return {"kind": "filter", "ast": d["ast"], "entry": EXH_ENTRY, "class": "parse-tree-mismatch",
                     "clause": "the printed filter compiles to the tree it denotes", "filter": d["filter"], "got": str(d["problem"])[:300]}
